@@ -4,7 +4,8 @@
    The byte-level refinement of the handle operations to Spec/FsSpec.v is decided per explored history
    (checks/c01.py: implementation vs the extracted reference model vs the extracted decoder); see DESIGN.md. *)
 From Coq Require Import ZArith List Bool.
-From ADF Require Import CPrelude Generated.Leaf Proofs.GeometryP.
+From ADF Require Import CPrelude Generated.Leaf Proofs.GeometryP Model.FileMap Proofs.FileMapP.
+Import ListNotations.
 Local Open Scope Z_scope.
 
 (* adfPos2DataBlock: for every position and both data-block sizes, the unique decomposition
@@ -40,8 +41,38 @@ Proof. exact filerealsize_spec. Qed.
 Example C01_witness : c_adfPos2DataBlock 70272 488 = (1, 0, 0, 144) /\ c_adfFileSize2Blocks 35137 488 = 75.
 Proof. split; vm_compute; reflexivity. Qed.
 
+(* ---- the block lists of a file (Model/FileMap.v: header table of 72 + chain of 72-slot extension blocks; tied to adf_file.c by
+   the block-level correspondence of checks/filemapcorr.py: raw tables after every close = enc of the model state) ---- *)
+
+(* the k-th data block of a file is found where the seek / read-next-block code looks for it (header slot k for k < 72, else
+   extension block (k-72)/72, slot (k-72) mod 72 - the decomposition of C01_geometry_pos), for every file length *)
+Theorem C01_block_found_where_sought : forall (l es : list Z) (k : nat),
+  length es = nexts (length l) -> (k < length l)%nat ->
+  find_block (enc_hdr l) (enc_exts l es) k = nth_error l k.
+Proof. exact find_block_enc. Qed.
+
+(* the number of extension blocks of that shape is the number the library computes (regenerated function) *)
+Theorem C01_extension_count_is_librarys : forall n : nat, Z.of_nat n < 2 ^ 32 ->
+  c_adfFileDatablocks2Extblocks (Z.of_nat n) = Z.of_nat (nexts n).
+Proof. exact nexts_is_library_count. Qed.
+
+(* growing a file block by block: the data list grows at the end, an extension block is consumed exactly when a new group of
+   72 starts beyond the header, and no block is referenced twice - for every history *)
+Theorem C01_append_block : forall s d e, Inv s -> ~ In d (f_data s ++ f_exts s) -> ~ In e (f_data s ++ f_exts s) -> d <> e ->
+  Inv (f_append s d e) /\ f_data (f_append s d e) = f_data s ++ [d] /\
+  f_exts (f_append s d e) = (if needs_ext (length (f_data s)) then f_exts s ++ [e] else f_exts s).
+Proof. exact append_inv. Qed.
+
+Example C01_filemap_example :
+  let l := map Z.of_nat (seq 1000 150) in
+  find_block (enc_hdr l) (enc_exts l [5000; 5001]%Z) 149 = Some 1149%Z /\ nexts 150 = 2%nat /\ nexts 72 = 0%nat /\ nexts 73 = 1%nat /\ nexts 144 = 1%nat /\ nexts 145 = 2%nat.
+Proof. vm_compute. repeat split; reflexivity. Qed.
+
 Print Assumptions C01_geometry_pos.
 Print Assumptions C01_geometry_datablocks.
 Print Assumptions C01_geometry_extblocks.
 Print Assumptions C01_geometry_blocks.
 Print Assumptions C01_geometry_realsize.
+Print Assumptions C01_block_found_where_sought.
+Print Assumptions C01_extension_count_is_librarys.
+Print Assumptions C01_append_block.
